@@ -483,8 +483,13 @@ class FileStore(Store):
     def store(self, key, data, metadata):
         if self.path_for_key(key) == self.path:
             raise KeyNotSupportedStoreException(key=key, store=self)
-        self.path_for_key(key).parent.mkdir(parents=True, exist_ok=True)
-        self.path_for_key(key).write_bytes(data)
+        path = self.path_for_key(key)
+        path.parent.mkdir(parents=True, exist_ok=True)
+        # Write to a temporary file and rename, so that a crash never leaves truncated data under the key
+        temporary_path = self.metadata_path_for_key(key).parent / (path.name + ".tmp")
+        temporary_path.parent.mkdir(parents=True, exist_ok=True)
+        temporary_path.write_bytes(data)
+        temporary_path.replace(path)
         self.store_metadata(
             key, self.finalize_metadata(metadata, key=key, is_dir=False, data=data)
         )
